@@ -28,11 +28,17 @@ RULE = ("cases: (spectrum, parameter object) pairs — dyadic/integer spectra wi
         "objects; random tree states (<= 8 nodes, decaying or rank-deficient bonds) truncated recursively or "
         "by sweeping. non-trivial = distinct case in which something is discarded, the cap or the keep-one "
         "branch is taken, a tie occurs, or renormalisation rescales")
-PARTIAL = ["tree level: only the abstract error accumulation is proved (trunc_error_telescoping, "
-           "trunc_error_bound_partial); that every local replacement of recursive_truncation / svd_truncation "
-           "changes the state by at most max(1,|psi|) times the weight discarded there, that identifiers and "
-           "relations are preserved and that every bond equals the length of a kept prefix are decided by the "
-           "oracle on every run, not by a theorem",
+PARTIAL = ["tree level, error bound: proved are (i) one projector insertion at the orthogonality centre changes the "
+           "state by exactly the discarded weight (single_projector_error, root_step_bound; SVD and isometric "
+           "embedding as hypotheses), (ii) an insertion below the centre changes it by at most N times the locally "
+           "discarded weight GIVEN that the rest of the network is bounded by N (general_step_bound), (iii) the "
+           "accumulation over all insertions incl. the l2 <= l1 step (recursive_truncation_error_bound_partial, "
+           "trunc_error_telescoping). ASSUMED, validated by the dense error check on every run: that for the "
+           "insertions below the root the rest of the network has norm <= max(1,|psi|), and that the contractions "
+           "between two insertions leave the state unchanged; svd_truncation's sweep is covered only by (i)+(iii)",
+           "tree level, structure: identifiers, parents and children are preserved by theorem "
+           "(*_structure_partial, on the C02 model); open legs / that every bond equals the length of a kept "
+           "prefix (hence <= max_bond_dim) are decided by the oracle only",
            "floating point: the model is exact; decisions closer than 1e-12 to a boundary are skipped unless "
            "the float computation is exact"]
 ASSUMPTIONS = ["svd_truncation is given a state with an orthogonality centre (it raises AssertionError otherwise: "
